@@ -590,9 +590,99 @@ def dt_fields(info) -> str:
     return f'{info.year} {o(info.month)} {o(info.day)} {o(info.hour)} {o(info.minute)} {ss} {hx(frac)} {int(info.end_of_day)} {tz}'
 
 
-RE_DT = re.compile(r'-?([1-9][0-9]{3,}|0[0-9]{3})(-(0[1-9]|1[0-2])(-(0[1-9]|[12][0-9]|3[01])'
-                   r'(T(([01][0-9]|2[0-3]):[0-5][0-9]:[0-5][0-9](\.[0-9]+)?|24:00:00(\.0+)?))?)?)?'
-                   r'(Z|[+-]((0[0-9]|1[0-3]):[0-5][0-9]|14:00))?\Z')
+RE_DT = re.compile(r'(?P<y>-?([1-9][0-9]{3,}|0[0-9]{3}))(-(?P<mo>0[1-9]|1[0-2])(-(?P<d>0[1-9]|[12][0-9]|3[01])'
+                   r'(T((?P<h>[01][0-9]|2[0-3]):(?P<mi>[0-5][0-9]):(?P<sec>[0-5][0-9](\.[0-9]+)?)|(?P<eod>24:00:00(\.0+)?)))?)?)?'
+                   r'(?P<tz>Z|[+-]((0[0-9]|1[0-3]):[0-5][0-9]|14:00))?\Z')
+
+
+def dt_lexical(t):
+    """independent reading of a legal literal: (fields the parser must deliver, canonical literal __str__ must write)"""
+    m = RE_DT.match(t)
+    if m is None:
+        return None
+    g = m.groupdict()
+    year = int(g['y'])
+    off = None
+    if g['tz'] is not None:
+        off = 0 if g['tz'] == 'Z' else (1 if g['tz'][0] == '+' else -1) * (int(g['tz'][1:3]) * 60 + int(g['tz'][4:6]))
+    fields = {'year': year, 'month': None if g['mo'] is None else int(g['mo']), 'day': None if g['d'] is None else int(g['d']),
+              'hour': None if g['h'] is None else int(g['h']), 'minute': None if g['mi'] is None else int(g['mi']),
+              'second': None if g['sec'] is None else fractions.Fraction(g['sec']), 'eod': g['eod'] is not None, 'offset': off}
+    canon = ('-' if year < 0 else '') + f'{abs(year):04d}'
+    if g['mo'] is not None:
+        canon += '-' + g['mo']
+    if g['d'] is not None:
+        canon += '-' + g['d']
+    if g['eod'] is not None:
+        canon += 'T24:00:00'
+    elif g['sec'] is not None:
+        sec = g['sec'].rstrip('0').rstrip('.') if '.' in g['sec'] else g['sec']
+        canon += f"T{g['h']}:{g['mi']}:{sec}"
+    if off is not None:
+        canon += 'Z' if off == 0 else ('+' if off > 0 else '-') + f'{abs(off) // 60:02d}:{abs(off) % 60:02d}'
+    return fields, canon
+
+
+def dt_offset(info):
+    return None if info.tz_info is None else round(info.tz_info.utcoffset(None).total_seconds() / 60)
+
+
+def dt_oracle(ctx, iso, s, r):
+    """XML -> Python -> XML for one date/time literal: rejection outside the lexical space, fields and utc offset as written,
+    the re-written literal is the canonical form of the input and parses to the same value"""
+    t = s.strip(XML_WS)
+    lex = dt_lexical(t)
+    if lex is None:
+        if r[0] == 'ok':
+            ctx.fail('datetime:lexical', f'parse_date_time({s!r}) -> {r[1]!r}', {'kind': 'dt', 's': s})
+        return
+    if r[0] != 'ok':
+        if s == t:
+            ctx.fail('datetime:valid-rejected', f'parse_date_time({s!r}) raised {r[1]}', {'kind': 'dt', 's': s})
+        return
+    fields, canon = lex
+    info = r[1]
+    got = {'year': info.year, 'month': info.month, 'day': info.day, 'hour': info.hour, 'minute': info.minute,
+           'second': info.second, 'eod': info.end_of_day, 'offset': dt_offset(info)}
+    for k, want in fields.items():
+        have = got[k]
+        if k == 'second' and want is not None and have is not None:
+            bad = abs(fractions.Fraction(have) - want) >= fractions.Fraction(1, 10 ** 6)
+        else:
+            bad = have != want
+        if bad:
+            ctx.fail('datetime:xml-py', f'parse_date_time({s!r}): {k} is {have!r}, the literal says {want!r}', {'kind': 'dt', 's': s})
+            return
+    out = str(info)
+    sec_txt = RE_DT.match(t).group('sec')
+    short = sec_txt is None or '.' not in sec_txt or len(sec_txt.split('.')[1]) <= 6
+    if out != canon and short:
+        ctx.fail('datetime:xml-py-xml', f'str(parse_date_time({s!r})) == {out!r}, canonical form of the input is {canon!r}', {'kind': 'dt', 's': s})
+        return
+    r2 = call(iso.parse_date_time, out)
+    if r2[0] != 'ok' or r2[1] != info or str(r2[1]) != out:
+        ctx.fail('datetime:roundtrip', f'{s!r} -> {out!r} -> {r2[1]!r}', {'kind': 'dt', 's': s})
+
+
+def tz_text(off, zero='Z'):
+    return zero if off == 0 else ('+' if off > 0 else '-') + f'{abs(off) // 60:02d}:{abs(off) % 60:02d}'
+
+
+def dt_object_oracle(ctx, iso, kw):
+    """Python -> XML -> Python for a constructed XsdDateInformation (seconds may be int)"""
+    case = {'kind': 'dt-obj', 'kw': dict(kw)}
+    kw = dict(kw)
+    if kw.get('tz_info') is not None:
+        kw['tz_info'] = datetime.timezone(datetime.timedelta(minutes=kw['tz_info']))
+    info = iso.XsdDateInformation(**kw)
+    out = str(info)
+    if dt_lexical(out) is None:
+        ctx.fail('datetime:py-xml', f'str({info!r}) == {out!r} is not a legal literal', case)
+        return info, out
+    r = call(iso.parse_date_time, out)
+    if r[0] != 'ok' or r[1] != info:
+        ctx.fail('datetime:py-xml-py', f'{info!r} -> {out!r} -> {r[1]!r}', case)
+    return info, out
 
 
 def run_datetime(ctx, iso):
@@ -610,7 +700,8 @@ def run_datetime(ctx, iso):
         if lvl >= 3:
             sec_txt = f'{rng.randrange(60):02d}' + rng.choice(['', '', '.' + ''.join(rng.choice('0123456789') for _ in range(rng.randrange(1, 7))), '.000', '.50'])
             s += f'T{rng.randrange(24):02d}:{rng.randrange(60):02d}:{sec_txt}' if rng.random() < 0.9 else 'T24:00:00' + rng.choice(['', '.0', '.000'])
-        s += rng.choice(['', '', 'Z', f'{rng.choice("+-")}{rng.randrange(14):02d}:{rng.randrange(60):02d}', '+14:00', '-14:00', '-05:00', '+00:00', '-00:00'])
+        s += rng.choice(['', '', 'Z', f'{rng.choice("+-")}{rng.randrange(14):02d}:{rng.randrange(60):02d}', f'-00:{rng.randrange(1, 60):02d}',
+                         f'+00:{rng.randrange(1, 60):02d}', '+14:00', '-14:00', '-05:00', '+00:00', '-00:00'])
         if rng.random() < 0.2:
             s = _mutate(rng, s)
         strs.append(s)
@@ -619,29 +710,35 @@ def run_datetime(ctx, iso):
              '2020-01-01T00:00:00z', '', 'abc', '2020-05:00', '2020-13:00', '2020-05-05:00', '2020-12-14:00', '2020-12-15:00', '2020-05', '2020-05-05', '2020Z',
              '2020-05Z', '2020\n', '2020\n\n', '-0000', '0000', '+2020', '2020-01-01T', '2020-01-01T00:00', '2020-01-01T00:00:00.', '2020-01-01T00:00:00.5.5',
              '2020-01-01T24:00:00.05', '2020-01-01T24:00:00.0Z', '2020-01T00:00:00', '2020T00:00:00', '2020-01-01T00:00:00.0000001', '2020-01-01T00:00:09.999999',
-             '2020-01-01T23:59:59.999999-14:00', '99999999999999999999-12-31']
+             '2020-01-01T23:59:59.999999-14:00', '99999999999999999999-12-31', '1972-01-07T03:15:30-00:44', '1972-01-07-00:01', '1972-01-00:59', '1972-00:30']
+    # every legal utc offset on every kind of literal (dateTime, date, gYearMonth, gYear)
+    bases = ['1972-01-07T03:15:30', '1972-01-07T03:15:30.25', '1972-01-07T24:00:00', '1972-01-07', '1972-01', '1972', '-0044-03-15T23:59:59.999999']
+    for off in range(-840, 841):
+        forms = [tz_text(off)] if off else ['Z', '+00:00', '-00:00']
+        for base in bases:
+            for f in forms:
+                strs.append(base + f)
+        ctx.count('dt:offsets')
     for s in strs:
         r = call(iso.parse_date_time, s)
         b.add('dtpy ' + hx(s), dt_dump(r[1]) if r[0] == 'ok' else 'err ' + r[1], 'parse_date_time', {'s': s})
-        t = s.strip(XML_WS)
-        inside = bool(RE_DT.match(t))
-        ctx.count('dt:' + ('inside' if inside else 'outside') + ':' + r[0])
+        ctx.count('dt:' + ('inside' if dt_lexical(s.strip(XML_WS)) else 'outside') + ':' + r[0])
         ctx.case(('dt', s))
-        if not inside and r[0] == 'ok':
-            ctx.fail('datetime:lexical', f'parse_date_time({s!r}) -> {r[1]!r}', {'kind': 'dt-bad', 's': s})
-        if inside and s == t and r[0] != 'ok':
-            ctx.fail('datetime:valid-rejected', f'parse_date_time({s!r}) raised {r[1]}', {'kind': 'dt', 's': s})
-        if r[0] != 'ok':
-            continue
-        out = str(r[1])
-        b.add('dtstr ' + dt_fields(r[1]), 'ok ' + out, 'XsdDateInformation.__str__', {'s': s})
-        r2 = call(iso.parse_date_time, out)
-        if r2[0] != 'ok' or r2[1] != r[1] or str(r2[1]) != out:
-            ctx.fail('datetime:roundtrip', f'{s!r} -> {out!r} -> {r2[1]!r}', {'kind': 'dt', 's': s})
-        elif r[1].second is not None:
-            m = re.search(r'T[0-9]{2}:[0-9]{2}:([0-9]{2}(\.[0-9]+)?)', t)
-            if m and abs(fractions.Fraction(r[1].second) - fractions.Fraction(m.group(1))) >= fractions.Fraction(1, 10 ** 6):
-                ctx.fail('datetime:second-resolution', f'{s!r} -> second {r[1].second!r}', {'kind': 'dt', 's': s})
+        dt_oracle(ctx, iso, s, r)
+        if r[0] == 'ok':
+            b.add('dtstr ' + dt_fields(r[1]), 'ok ' + str(r[1]), 'XsdDateInformation.__str__', {'s': s})
+    # constructed objects: integer and float seconds, every shape
+    tzs = [None, 0, -44, 330]
+    for sec in list(range(60)) + [0.0, 5.0, 9.999999, 10.0, 30.0, 59.999999, 0.000001, 1e-05, 30.5]:
+        for tz in tzs[: 2 if isinstance(sec, int) and sec % 7 else 4]:
+            kw = dict(year=2020, month=2, day=29, hour=23, minute=0, second=sec, tz_info=tz)
+            info, out = dt_object_oracle(ctx, iso, kw)
+            b.add('dtstr ' + dt_fields(info), 'ok ' + out, 'XsdDateInformation.__str__', {'kw': str(kw)})
+            ctx.case(('dt-obj', repr(sec), str(tz)))
+    for kw in (dict(year=-1), dict(year=0), dict(year=12345, month=12), dict(year=5, month=1, day=31), dict(year=2020, month=1, day=1, end_of_day=True, tz_info=-840)):
+        info, out = dt_object_oracle(ctx, iso, kw)
+        b.add('dtstr ' + dt_fields(info), 'ok ' + out, 'XsdDateInformation.__str__', {'kw': str(kw)})
+        ctx.case(('dt-obj', str(kw)))
     b.flush()
 
 
@@ -736,12 +833,9 @@ def _replay_case(ctx, dc, iso, case, report=False):
         if (r[0] == 'ok') != (case['s'] in [m.value for m in cls]):
             ctx.fail('lexical:enum-coerced', case['s'], case)
     elif k in ('dt', 'dt-bad'):
-        r = call(iso.parse_date_time, case['s'])
-        if k == 'dt-bad':
-            if r[0] == 'ok':
-                ctx.fail('datetime:lexical', case['s'], case)
-        elif r[0] != 'ok' or call(iso.parse_date_time, str(r[1])) != r:
-            ctx.fail('datetime:roundtrip', case['s'], case)
+        dt_oracle(ctx, iso, case['s'], call(iso.parse_date_time, case['s']))
+    elif k == 'dt-obj':
+        dt_object_oracle(ctx, iso, case['kw'])
     return len(ctx.failures) > before
 
 
